@@ -407,7 +407,7 @@ func priorityClass(c string) bool {
 	if strings.HasPrefix(c, "combo") || strings.HasPrefix(c, "pair") || strings.HasSuffix(c, ":msg-partial-first") || strings.HasSuffix(c, ":msg-partial-last") || strings.HasSuffix(c, ":long") {
 		return true // field-combination values are few and identical on every run
 	}
-	for _, suf := range []string{":unset", ":msg-empty", ":msg-unset", ":empty", ":list-empty", ":map-empty", ":max", ":min", ":gt2p53", ":zero", ":enum-zero", ":ts-pre-epoch", ":ts-nanos", ":false", ":all-bytes", ":nonascii-bmp"} {
+	for _, suf := range []string{":unset", ":msg-empty", ":msg-unset", ":empty", ":list-empty", ":map-empty", ":max", ":min", ":gt2p53", ":zero", ":enum-zero", ":ts-pre-epoch", ":ts-nanos", ":false", ":all-bytes", ":nonascii-bmp", ":map-msgs-same-shape"} {
 		if strings.HasSuffix(c, suf) {
 			return true
 		}
